@@ -240,29 +240,53 @@ def run_adaptive(case):
     if res is None:
         out.cls("ended-by-step-cap")    # no regular stop was reached within 30 steps: nothing is reported by the library
         return out
-    reported = np.array(res[3], dtype=float)
-    tag = "%s stop after %d refinement steps (%d points)" % (kind, st_["steps"], res[6][-1])
-    if hier:
-        tot, mag = _independent_dw_hierarchical(sa, case, _integrand(case)[1])
-    elif kind == "dw":
-        tot, mag = _independent_dw(sa, comps)
-    else:
-        tot, mag, per_area = _independent_es(sa, comps)
-        vals = [np.asarray(o.value, dtype=float) for o in sa.refinement.get_objects()]
-        if not _close(np.sum(vals, axis=0), reported, mag):
-            out.bad(sub + "/result-not-sum-of-area-values", "%s: sum area.value %s reported %s" % (tag, np.sum(vals, axis=0), reported))
-        for v, t, o in zip(vals, per_area, sa.refinement.get_objects()):
-            if not _close(v, t, mag):
-                out.bad(sub + "/area-value-not-combination-of-its-grids", "%s area %s-%s: %s vs %s" % (tag, list(o.start), list(o.end), v, t))
-                break
-    if not _close(reported, tot, mag):
-        out.bad(sub + "/result-not-sum-of-components", "%s: reported %s independent %s" % (tag, reported, tot))
-    if kind == "dw" and not hier:
+    def check_stop(res, stage):
+        reported = np.array(res[3], dtype=float)
+        tag = "%s %s stop after %d refinement steps (%d points)" % (kind, stage, st_["steps"], res[6][-1])
+        if hier:
+            tot, mag = _independent_dw_hierarchical(sa, case, _integrand(case)[1])
+        elif kind == "dw":
+            tot, mag = _independent_dw(sa, comps)
+        else:
+            tot, mag, per_area = _independent_es(sa, comps)
+            vals = [np.asarray(o.value, dtype=float) for o in sa.refinement.get_objects()]
+            if not _close(np.sum(vals, axis=0), reported, mag):
+                out.bad(sub + "/result-not-sum-of-area-values", "%s: sum area.value %s reported %s" % (tag, np.sum(vals, axis=0), reported))
+            for v, t, o in zip(vals, per_area, sa.refinement.get_objects()):
+                if not _close(v, t, mag):
+                    out.bad(sub + "/area-value-not-combination-of-its-grids", "%s area %s-%s: %s vs %s" % (tag, list(o.start), list(o.end), v, t))
+                    break
+        if not _close(reported, tot, mag):
+            out.bad(sub + "/result-not-sum-of-components", "%s: reported %s independent %s" % (tag, reported, tot))
+        if kind == "dw" and not hier:
+            with drive.quiet():
+                P, W = sa.get_points_and_weights()
+            t, m = _wsum(comps, [tuple(float(x) for x in p) for p in P], W)
+            if not _close(reported, t, m):
+                out.bad(sub + "/points-and-weights-do-not-reproduce-result", "%s: reported %s via weights %s" % (tag, reported, t))
+        return reported, tot, mag, tag
+
+    reported, tot, mag, tag = check_stop(res, "first")
+    if case.get("extra", 0) and not out.violations:
+        # query at one stop, continue the SAME object with larger limits, query again: the publicly exposed points and
+        # weights and the component sums must describe the NEW stop
         with drive.quiet():
-            P, W = sa.get_points_and_weights()
-        t, m = _wsum(comps, [tuple(float(x) for x in p) for p in P], W)
-        if not _close(reported, t, m):
-            out.bad(sub + "/points-and-weights-do-not-reproduce-result", "%s: reported %s via weights %s" % (tag, reported, t))
+            try:
+                res = sa.continue_adaptive_refinement(tol=-1, max_evaluations=int(res[6][-1]) + int(case["extra"]))
+            except drive.StopHistory:
+                res = None
+        if res is None:
+            out.cls("ended-by-step-cap")
+            return out
+        out.cls("query-continue-query")
+        reported, tot, mag, tag = check_stop(res, "second (after continue_adaptive_refinement)")
+        # (the re-evaluation clauses below compare with a single-stage twin run and are checked in the cases without a second stage)
+        out.nontrivial = st_["steps"] >= 2 and st_["strict"] >= 1
+        out.cls("version=%d" % case["version"], "steps>=2" if st_["steps"] >= 2 else "steps<2")
+        if kind == "dw":
+            out.cls("dwgrid=" + case.get("dwgrid", "trapezoidal"))
+        out.info = dict(max_steps=st_["steps"], max_points=int(res[6][-1]))
+        return out
     # re-evaluating the final refinement from scratch
     with drive.quiet():
         fin, _n = sa.evaluate_final_combi()
@@ -325,6 +349,7 @@ def dw_strategy(tier):
     def s(draw):
         c = draw(drive.st_dw_case(tier=tier))
         c["nout"] = draw(st.integers(1, 3))
+        c["extra"] = draw(st.sampled_from([0, 0, 1, 10, 40]))
         c["dwgrid"] = draw(st.sampled_from(["trapezoidal", "trapezoidal", "trapezoidal", "highorder", "highorder", "romberg", "lagrange", "bspline"]))
         c["max_degree"] = draw(st.integers(2, 4))
         if c["dwgrid"] == "romberg":        # the Romberg grid asserts exactly dyadic step widths
@@ -342,6 +367,7 @@ def es_strategy(tier):
     def s(draw):
         c = draw(drive.st_es_case(tier=tier, versions=(0,)))
         c["nout"] = draw(st.integers(1, 2))
+        c["extra"] = draw(st.sampled_from([0, 0, 1, 20, 80]))
         c["maxev"] = min(c["maxev"], 700)
         return c
     return s()
